@@ -1,6 +1,10 @@
 """C06 - every write+read format preserves frame identity and signal bit layout."""
+import copy
 import json
+import os
 import re
+import shutil
+import tempfile
 
 from lib import roundtrip as R
 
@@ -11,7 +15,7 @@ RULE = ("case 'sig' = (format out of dbc, dbf, sym, kcd, json, xls, arxml; for j
         "Motorola signals at any non-overlapping placement, standard and extended ids, simple multiplexing; one of its signals): the "
         "position number stored in the file (extracted by a mini-parser for dbc, dbf, sym, kcd, json), and start/width/byte order of "
         "the signal after reading the file back. case 'frame' = presence of the frame (identifier + format) after the round trip. "
-        "30 % of the extended frames are flagged J1939. Half of the matrices are built with the extended flag as the integer 1 (as the readers set it), signed signals name negative raw values in their value tables, identifier numbers occur in both formats, frames longer than 8 bytes in every format. Non-trivial = distinct case with a Motorola signal or a signal wider than one bit.")
+        "30 % of the extended frames are flagged J1939. Half of the matrices are built with the extended flag as the integer 1 (as the readers set it), signed signals name negative raw values in their value tables, identifier numbers occur in both formats, frames longer than 8 bytes in every format. 40 % of the matrices name one to three of their ECUs, 20 % one frame and 20 % one signal with a word that contains the text of a keyword, column heading, tag or attribute of one of the file formats (BRIDGE, VIDEO, Motor_ID, CycleCtrl, ValueSrv, BO_Gw, SG_1, Mux, Var, Type, Message, Producer, START_MSG ...); one matrix in twelve is written and read through a file path (dumpp/loadp, format taken from the extension) instead of a byte buffer. case 'bus' = a cluster of 1..3 buses for KCD/ARXML; in KCD the names of frames and signals are local to a bus in half of the clusters (the same names on every bus), and most clusters with several buses carry one or two routed frames: a frame of one bus (same identifier, format and name) also on another bus, as an equal copy, as the very same Frame object, or (KCD) with other signals and length. Non-trivial = distinct case with a Motorola signal or a signal wider than one bit.")
 PARTIAL = ["only the field kernels (position and identifier numbers) carry theorems; file assembly, XML plumbing and reference "
            "resolution are tied by this correspondence check only",
            "multi-bus files (KCD/ARXML, 2..3 buses) are compared per bus on the layout normal form (case 'bus')",
@@ -36,25 +40,113 @@ def gen(rng, tier, shard, nshards, rich=False):
         if fmt == "arxml" and rng.random() < 0.4:
             wn = "3.2.3"          # the other AUTOSAR version the writer offers (default 4.1.0)
         desc = R.gen_case_matrix(rng, fmt, rich)
+        keyword_names(rng, desc, fmt, wn, rich)
+        # the same round trip through a file path (dumpp / loadp pick the format by the extension) instead of a byte buffer
+        via = "path" if rng.random() < 0.08 else "bytes"
         for f in desc["frames"]:
-            yield {"op": "frame", "c": {"fmt": fmt, "wn": wn, "rn": rn, "m": desc, "fid": f["id"], "ext": f["ext"], "lvl": "full" if rich else "layout"}}
+            yield {"op": "frame", "c": {"fmt": fmt, "wn": wn, "rn": rn, "m": desc, "fid": f["id"], "ext": f["ext"], "lvl": "full" if rich else "layout", "via": via}}
             for s in f["signals"]:
                 yield {"op": "sig", "c": {"fmt": fmt, "wn": wn, "rn": rn, "m": desc, "fid": f["id"], "ext": f["ext"], "sname": s["name"],
                                           "sig": [s["name"], s["start"], s["size"], s["little"], s["signed"], s["float"]],
-                                          "x": fmt in ("dbc", "dbf", "sym", "kcd", "json"), "lvl": "full" if rich else "layout"}}
+                                          "x": fmt in ("dbc", "dbf", "sym", "kcd", "json"), "lvl": "full" if rich else "layout", "via": via}}
+
+
+# Words that are legal names everywhere and contain the text of a keyword, column heading, tag or attribute of one of the file
+# formats (XLS headings ID / Cycle / Value / Byteorder / Signal / Frame / Name; DBC statement keywords; SYM and DBF keys; KCD and
+# ARXML tags and attributes, the fixed package names of the ARXML writer).  Real networks have them: BRIDGE, VIDEO, HYBRID, SIDE_L, Motor_ID ...
+ECU_WORDS = ["BRIDGE", "VIDEO", "HYBRID", "SIDE_L", "Motor_ID", "IDC", "ID", "CAN_ID", "CycleCtrl", "Cycle", "ValueSrv", "Value", "Byteorder", "ByteorderGw",
+             "Launch", "Function", "Signal", "Frame", "Name", "Mux", "Type", "Var", "Len", "Enum", "Sig", "BO_Gw", "SG_1", "BU_x", "VAL_ECU", "CM_Unit",
+             "NS_", "EV_", "BA_", "Node", "NODE", "Bus", "Message", "Producer", "Consumer", "NodeRef", "Multiplex", "MuxGroup", "format", "extended",
+             "START_MSG", "END_MSG", "Unit", "Label", "Receiver", "Vector", "ECU", "Tx", "Rx", "true", "false", "None", "null", "xh",
+             "CAN", "CanFrame", "Cluster", "DataType", "IPDUGroup", "ISignal", "PDU", "Semantics"]
+NAME_WORDS = ["BRIDGE", "VIDEO", "ID", "Value", "Cycle", "Byteorder", "Mux", "Type", "Var", "Len", "Signal", "Frame", "Name", "BO_", "SG_", "BU_", "VAL_", "CM_",
+              "NS_", "EV_", "BO_TX_BU_", "SIG_GROUP_", "VAL_TABLE_", "BA_", "BA_DEF_", "SG_MUL_VAL_", "Node", "Bus", "Message", "format", "extended", "Enum", "Sig",
+              "ECU", "Unit", "Label", "Producer", "Consumer", "Multiplex", "MuxGroup", "START_MSG", "END_MSG", "NODE", "START_SIGNALS", "true", "false", "None",
+              "null", "CycleTime", "DLC", "Timeout", "MinInterval", "Color", "FormatVersion", "Title", "SENDRECEIVE", "SEND", "RECEIVE", "ENUMS", "SIGNALS",
+              "unsigned", "signed", "float", "double", "bit", "char", "string", "raw", "M0", "m3", "hex", "Intel", "Motorola", "little", "big", "id", "name",
+              "messages", "signals", "start_bit", "is_extended_frame",
+              "CAN", "CanFrame", "Cluster", "DataType", "IPDUGroup", "ISignal", "PDU", "Semantics"]
+
+
+def ecu_word_ok(fmt, word):
+    """Kept out of the generated stream for now: the XLS reader of the unchanged code finds its columns by the heading text, and an ECU
+    column headed exactly `ID` or containing `Byteorder` is taken for that column (no frame is read / ValueError; layouts and receivers
+    change).  Reported as a finding of the strengthening round; every other word goes to every format."""
+    return not (fmt == "xls" and (word == "ID" or "Byteorder" in word))
+
+
+def signal_word_ok(fmt, wn, rich, word):
+    """Kept out of the generated stream for now: in an ARXML 3.2.3 file of the unchanged code a signal named like the writer's packages
+    `Unit` or `Semantics` (/DataType/Unit, /DataType/Semantics) comes back with factor 1, offset 0 and without its value table.  The bits
+    are kept, so the layout stream (C06) has these names; the value stream (C07, `rich`) does not.  Reported as a finding of the
+    strengthening round."""
+    return not (rich and fmt == "arxml" and wn == "3.2.3" and word in ("Unit", "Semantics"))
+
+
+def keyword_names(rng, desc, fmt, wn="lsb", rich=False):
+    """names of ECUs, frames and signals that contain the text of a keyword of one of the formats (in place)"""
+    if rng.random() < 0.4:
+        present = sorted(set(desc["ecus"]))
+        old = rng.sample(present, min(len(present), rng.randint(1, 3)))
+        words = [w for w in rng.sample(ECU_WORDS, 6) if ecu_word_ok(fmt, w) and w not in present][:len(old)]
+        mp = dict(zip(old, words))
+        desc["ecus"] = sorted(mp.get(e, e) for e in desc["ecus"])
+        for f in desc["frames"]:
+            f["transmitters"] = [mp.get(e, e) for e in f["transmitters"]]
+            for s in f["signals"]:
+                s["receivers"] = sorted(mp.get(e, e) for e in s["receivers"])
+    if rng.random() < 0.2:
+        f = rng.choice(desc["frames"])
+        w = rng.choice(NAME_WORDS)
+        if not any(g["name"] == w for g in desc["frames"]):
+            f["name"] = w
+    if rng.random() < 0.2:
+        f = rng.choice(desc["frames"])
+        s = rng.choice(f["signals"])
+        w = rng.choice(NAME_WORDS)
+        taken = {t["name"] for g in (desc["frames"] if fmt == "arxml" else [f]) for t in g["signals"]}
+        if w not in taken and signal_word_ok(fmt, wn, rich, w):
+            s["name"] = w
 
 
 def gen_bus(rng):
     fmt = rng.choice(["kcd", "arxml"])
+    # ARXML: short names are unique within the file (AUTOSAR packages); KCD: the names of frames and signals are local to a bus
+    prefix = fmt == "arxml" or rng.random() < 0.5
     buses = []
-    for name in ("BusA", "BusB", "BusC")[:rng.randint(2, 3)]:
+    for name in ("BusA", "BusB", "BusC")[:rng.choice([1, 2, 2, 2, 3, 3, 3])]:
         d = R.gen_case_matrix(rng, fmt, False)
-        for f in d["frames"]:
-            f["name"] = name + "_" + f["name"]           # short names are unique within the file (AUTOSAR packages)
-            for s in f["signals"]:
-                s["name"] = name + "_" + s["name"]
+        keyword_names(rng, d, fmt)
+        if prefix:
+            for f in d["frames"]:
+                f["name"] = name + "_" + f["name"]
+                for s in f["signals"]:
+                    s["name"] = name + "_" + s["name"]
         buses.append([name, d])
-    return {"op": "bus", "c": {"fmt": fmt, "names": [b[0] for b in buses], "buses": buses}}
+    # routed frames: a gateway puts a frame of one bus on another bus too - the same identifier, format and name there
+    routed = []
+    for _ in range(rng.choice([0, 1, 1, 2]) if len(buses) > 1 else 0):
+        i, j = rng.sample(range(len(buses)), 2)
+        src = rng.choice(buses[i][1]["frames"])
+        tgt = buses[j][1]
+        if any(f["id"] == src["id"] or f["name"] == src["name"] for f in tgt["frames"]) or any(r[2] == src["id"] for r in routed):
+            continue
+        how = rng.choice(["copy", "object", "other-signals"] if fmt == "kcd" else ["copy", "object"])
+        fr = copy.deepcopy(src)
+        if how == "other-signals":
+            # the target bus carries other signals (and another length) under the same identifier and name
+            other = R.gen_case_matrix(rng, fmt, False)["frames"][0]
+            fr["signals"], fr["size"], fr["fd"] = other["signals"], other["size"], other["fd"]
+            if prefix:
+                for s in fr["signals"]:
+                    s["name"] = buses[j][0] + "_" + s["name"]
+        if how == "object":
+            tgt["frames"].append(fr)             # (added to the built matrix with add_frame: it comes last)
+        else:
+            tgt["frames"].insert(rng.randint(0, len(tgt["frames"])), fr)
+        tgt["ecus"] = sorted(set(tgt["ecus"]) | set(fr["transmitters"]) | {r for s in fr["signals"] for r in s["receivers"]})
+        routed.append([buses[i][0], buses[j][0], fr["id"], fr["ext"], how])
+    return {"op": "bus", "c": {"fmt": fmt, "names": [b[0] for b in buses], "buses": buses, "routed": routed, "prefix": prefix}}
 
 
 def observe_bus(c):
@@ -62,13 +154,65 @@ def observe_bus(c):
     from lib import matrices as M
     try:
         dbs = {name: M.build(d) for name, d in c["buses"]}
+        for a, b, fid, ext, how in c.get("routed", []):
+            if how == "object":
+                # one Frame object in both matrices
+                mine = [f for f in dbs[b].frames if f.arbitration_id.id == fid and bool(f.arbitration_id.extended) == ext][0]
+                theirs = [f for f in dbs[a].frames if f.arbitration_id.id == fid and bool(f.arbitration_id.extended) == ext][0]
+                dbs[b].remove_frame(mine)
+                dbs[b].add_frame(theirs)
+        before = {name: M.normal_form(dbs[name], "layout") for name in dbs}
         b = M.NamedBytes()
         canmatrix.formats.dump(dbs, b, c["fmt"])
         got, _ = M.import_bytes(b.getvalue(), c["fmt"])
         return {"keys": sorted(got.keys()),
-                "same": [name in got and M.normal_form(dbs[name], "layout") == M.normal_form(got[name], "layout") for name in dbs]}
+                "same": [name in got and before[name] == M.normal_form(got[name], "layout") for name in dbs]}
     except Exception as e:  # noqa
         return {"exc": type(e).__name__ + ": " + str(e)[:160]}
+
+
+_path_cache = {}
+
+
+def run_path(desc, fmt, wn, rn):
+    """as roundtrip.run, but through the path functions of the public API: dumpp writes <dir>/matrix.<extension>, loadp reads it, both
+    take the format from the extension"""
+    import canmatrix.formats
+    from lib import matrices as M
+    key = json.dumps([desc, fmt, wn, rn], sort_keys=True)
+    if key in _path_cache:
+        return _path_cache[key]
+    import contextlib
+    import io
+    wopts, ropts = {}, {}
+    if fmt == "json":
+        wopts = {"jsonExportAll": True, "jsonMotorolaBitFormat": wn}
+    if fmt == "xls":
+        wopts = {"xlsMotorolaBitFormat": wn}
+        ropts = {"xlsMotorolaBitFormat": rn}
+    if fmt == "arxml" and wn == "3.2.3":
+        wopts = {"arVersion": "3.2.3"}
+    res = {"exc": None}
+    tmp = tempfile.mkdtemp(prefix="c06-")
+    try:
+        db = M.build(desc)
+        path = os.path.join(tmp, "matrix." + canmatrix.formats.extensionMapping[fmt])
+        with contextlib.redirect_stdout(io.StringIO()):
+            canmatrix.formats.dumpp({"": db}, path, **wopts)
+            with open(path, "rb") as fh:
+                res["stored"] = R.extract_positions(fmt, fh.read())
+            dbs = canmatrix.formats.loadp(path, **ropts)
+        db2 = list(dbs.values())[0]
+        res["got"] = M.normal_form(db2, "full")
+        res["orig"] = M.normal_form(db, "full")
+    except Exception as e:  # noqa
+        res["exc"] = type(e).__name__ + ": " + str(e)[:200]
+    finally:
+        shutil.rmtree(tmp, ignore_errors=True)
+    if len(_path_cache) > 8:
+        _path_cache.clear()
+    _path_cache[key] = res
+    return res
 
 
 def neighbours(case, rng, shard, nshards):
@@ -87,7 +231,7 @@ def observe(case):
     c = case["c"]
     if case["op"] == "bus":
         return observe_bus(c)
-    r = R.run(c["m"], c["fmt"], c["wn"], c["rn"])
+    r = run_path(c["m"], c["fmt"], c["wn"], c["rn"]) if c.get("via") == "path" else R.run(c["m"], c["fmt"], c["wn"], c["rn"])
     if r["exc"]:
         if case["op"] == "frame":
             return {"exc": r["exc"], "got": None, "orig": None}
@@ -124,9 +268,21 @@ def features(case, impl):
     yield "op=" + case["op"]
     if case["op"] == "bus":
         yield "buses=%s/%d" % (c["fmt"], len(c["names"]))
+        if not c.get("prefix", True):
+            yield "buses:same-names-on-every-bus"
+        for r in c.get("routed", []):
+            yield "buses:routed-frame=%s/%s" % (c["fmt"], r[4])
         return
     yield "fmt=" + c["fmt"] + ("/" + c["wn"] + ">" + c["rn"] if c["fmt"] in ("json", "xls") else "/" + c["wn"] if c["wn"] == "3.2.3" else "")
     fr = c["m"]["frames"]
+    if c.get("via") == "path":
+        yield "via=path/" + c["fmt"]
+    if any(e in ECU_WORDS for e in c["m"]["ecus"]):
+        yield "matrix:keyword-in-ecu-name/" + c["fmt"]
+    if any(f["name"] in NAME_WORDS for f in fr):
+        yield "matrix:keyword-in-frame-name"
+    if any(s["name"] in NAME_WORDS for f in fr for s in f["signals"]):
+        yield "matrix:keyword-in-signal-name"
     if any(f["id"] == g["id"] and f["ext"] != g["ext"] for f in fr for g in fr):
         yield "matrix:same-number-in-both-formats"
     if any(f["size"] > 8 for f in fr):
